@@ -234,13 +234,13 @@ Definition blankA : val R := VObj cAngle [VNone; VNone].
 
 Lemma Angle_new_sec s :
   Angle___init__ Rops blankA (VTuple [VInt 0; VInt 0; VFloat s]) (VDict []) = ang (dms_sec s).
-Proof. Time pyrun1. reflexivity. Qed.
+Proof. pyrun1. reflexivity. Qed.
 
 Lemma Angle_new_deg x :
   Angle___init__ Rops blankA (VTuple [VFloat x]) (VDict []) = ang (red360 x).
-Proof. Time pyrun1. reflexivity. Qed.
+Proof. pyrun1. reflexivity. Qed.
 
 Lemma Angle_new_rad x :
   Angle___init__ Rops blankA (VTuple [VFloat x]) (VDict [(VStr "radians", VBool true)])
   = ang (red360 (r2d x)).
-Proof. Time pyrun1. reflexivity. Qed.
+Proof. pyrun1. reflexivity. Qed.
